@@ -1233,3 +1233,90 @@ def r04_8(ctx):
             ctx.ok((fnm, 'remote_last_win', w['bb']), sample=dict(fn=fnm, stores=show(o)[:80]))
 
 
+
+
+@rule('R03.11', ['C03', 'C11', 'C10'], floor=2, clause='a multicast report in answer to a group-specific query is scheduled only for the queried group itself and only when the interface is a member of it (a report for the unspecified address is asserted against in dispatch_ip)')
+def r03_11(ctx):
+    F = ctx.F
+    n = 0
+    for fn, st_adt in (('process_igmp', 'IgmpReportState'), ('process_mldv2', 'MldReportState')):
+        cands = [b for k, b in F.bodies.items() if k.endswith('::' + fn) and '::test' not in k]
+        if not cands:
+            continue
+        b = cands[0]
+        hm = [k for k in F.bodies if k.endswith('InterfaceInner::has_multicast_group')]
+        ctx.need(hm, "InterfaceInner::has_multicast_group")
+        for bi, bl in enumerate(b.blocks):
+            if bl['cl']:
+                continue
+            for si, s in enumerate(bl['s']):
+                if not (s[0] == 'a' and s[2][0] == 'agg' and s[2][1].get('k') == 'adt' and str(s[2][1].get('adt', '')).endswith(st_adt)
+                        and s[2][1].get('variant') == 'ToSpecificQuery'):
+                    continue
+                names = s[2][1].get('fnames') or []
+                if 'group' not in names:
+                    continue
+                n += 1
+                g = strip(simplify(F.origin.operand(b, s[2][2][names.index('group')], bi, si)))
+                gl = leafs(g)
+
+                def member(f, gl=gl):
+                    if f[0] != 'bool' or f[2] is not True:
+                        return False
+                    c = strip(f[1])
+                    if c[0] != 'call' or c[1] not in hm:
+                        return False
+                    al = set()
+                    for a in c[2][1:]:
+                        al |= leafs(a)
+                    return bool(gl) and gl <= al and al - {x for x in al if x.startswith('C:')} <= gl | {x for x in al if x.startswith('C:')}
+                if unguarded(F, b, [bi], member):
+                    ctx.bad(f"{fn}|specific-report|not-member-of-that-group", f"{fn} schedules a report for group {show(g)[:50]} without having established that the interface "
+                            "is a member of that very group (has_multicast_group on the same value): a crafted query makes the stack emit a report for an arbitrary - e.g. the "
+                            "unspecified - address, which dispatch_ip asserts against", body=b, bb=bi)
+                else:
+                    ctx.ok((fn, 'specific-report'), sample=dict(fn=fn, group=show(g)[:40], guard='has_multicast_group(group)'))
+    ctx.need(n >= 2, f"ToSpecificQuery report states (found {n})")
+
+
+@rule('R03.12', ['C03', 'C16'], floor=1, clause='neighbor discovery messages are processed only on media that have link-layer addresses: process_ndisc (which parses the link-layer address options, unreachable!() for the IP medium) is called behind medium = Ethernet / IEEE 802.15.4')
+def r03_12(ctx):
+    F = ctx.F
+    n = 0
+    pn = [k for k in F.bodies if k.endswith('::process_ndisc') and '::test' not in k]
+    ctx.need(pn, "InterfaceInner::process_ndisc")
+    linked = lambda f: (f[0] == 'is' and f[3] == 'phy::Medium' and f[2] in ('Ethernet', 'Ieee802154')) or \
+        (f[0] == 'isnot' and f[3] == 'phy::Medium' and 'Ip' in f[2])
+    for k, b in sorted(F.bodies.items()):
+        if '::test' in k or not (b.file or '').startswith('src/iface/'):
+            continue
+        sites = [x[0] for x in b.calls() if b.callee_name(x[1]) in pn]
+        for sbb in sites:
+            n += 1
+            fnm = k.split('>::')[-1] if '>::' in k else k.rsplit('::', 1)[-1]
+            if unguarded(F, b, [sbb], linked):
+                ctx.bad(f"{fnm}|process_ndisc|ip-medium", f"{fnm} hands a neighbor discovery message to process_ndisc on a path that has not established an Ethernet / IEEE 802.15.4 "
+                        "medium: on the IP medium a message with a link-layer address option reaches unreachable!() in RawHardwareAddress::parse and Interface::poll panics", body=b, bb=sbb)
+            else:
+                ctx.ok((fnm, 'process_ndisc', sbb), sample=dict(fn=fnm, guard='caps.medium is Ethernet | Ieee802154'))
+    ctx.need(n >= 1, "calls of process_ndisc")
+
+
+@rule('R04.9', ['C04', 'C05', 'C02'], floor=3, clause='what the socket believes it told the peer (last ACK number, last window, highest sequence sent) is recorded only after the segment was handed to the device: a failed emit leaves the advertised edge where the peer saw it')
+def r04_9(ctx):
+    F = ctx.F
+    SOCK = 'socket::tcp::Socket'
+    d = ctx.method(SOCK, 'dispatch')
+    okc = lambda f: f[0] == 'is' and f[2] in ('Continue', 'Ok') and any(l.endswith('FnOnce::call_once') for l in leafs(f[1]) if l.startswith('C:'))
+    ctx.need(guard_edges(F, d, okc), "the `emit(..)?` success edge in tcp::Socket::dispatch")
+    ws = [w for w in F.field_writes() if w['fn'] == d.key and w['adt'] == SOCK and w['kind'] == 'store' and w['field'] in ('remote_last_ack', 'remote_last_win', 'remote_last_seq')]
+    # only the stores that record the segment just built (values read from the segment representation); the retransmission
+    # rewind `remote_last_seq = local_seq_no` is not a record of something sent
+    ws = [w for w in ws if not is_field(simplify(store_origin(F, d, w)), SOCK, 'local_seq_no')]
+    ctx.need(len(ws) >= 3, "stores of segment fields to remote_last_ack / remote_last_win / remote_last_seq in dispatch")
+    for w in ws:
+        if unguarded(F, d, [w['bb']], okc):
+            ctx.bad(f"dispatch|{w['field']}|before-emit", f"tcp dispatch records {w['field']} although the segment may not have been sent (emit can fail: device exhausted, neighbour "
+                    "unresolved): the socket then honours a window / acknowledgment the peer never saw", body=d, bb=w['bb'])
+        else:
+            ctx.ok(('dispatch', w['field'], w['bb']), sample=dict(field=w['field'], after='emit(..)?'))
